@@ -139,6 +139,22 @@ def run(ck):
                             eff = visible_effects(p, p.value)
                             ck.check(bool(eff) == si, "C17.R1", "ModelSaver.on_train_start/save_initial=%s" % si, f.site(),
                                      "initial save %s although save_initial=%s" % ("happens" if eff else "is skipped", si))
+
+                        # the same saver used for a second run (another fit, possibly of another model): its initial state is saved as well
+                        def th3(it, si=si):
+                            cb = make_cb(it, prog, cls, save_initial=VConst(si))
+                            call(it, cb, ev, unk("nn_state"))
+                            call(it, cb, "on_epoch_end", unk("nn_state"), VNum("int", T.sym("epoch"), pos=True))
+                            call(it, cb, "on_train_end", unk("nn_state"))
+                            n0 = len(it.effects)
+                            call(it, cb, ev, unk("nn_state2"))
+                            return n0
+
+                        for p in paths_of(prog, th3, sticky=True):
+                            eff = visible_effects(p, p.value)
+                            ck.check(bool(eff) == si, "C17.R1", "ModelSaver.on_train_start/save_initial=%s/second run with the same saver" % si, f.site(),
+                                     "in a second run the initial save %s although save_initial=%s: the file named 'initial' does not hold the parameters that run started from" % ("happens" if eff else "is skipped", si),
+                                     key="C17.R1|ModelSaver|second run initial")
                 continue
             ck.violation("C17.R1", "%s.%s overridden" % (cls, ev), f.site(), "%s acts on %s; periodic callbacks must act only at epoch ends" % (cls, ev))
     # ------------------------------------------------------------------ R2 record layout & accessors
